@@ -529,6 +529,125 @@ Section G2.
 End G2.
 
 (* ================================================================== *)
+(* G2 codec *)
+Lemma parity_flip p y : p mod 2 = 1 -> 0 < y < p ->
+  N.eqb (y_parity y) (y_parity (p - y)) = false.
+Proof.
+  intros Hodd Hy. apply N.eqb_neq. unfold y_parity. intros Epar.
+  apply Z2N.inj in Epar; try (apply Z.mod_pos_bound; lia).
+  pose proof (Z.div_mod p 2 ltac:(lia)) as D1.
+  pose proof (Z.div_mod y 2 ltac:(lia)) as D2.
+  pose proof (Z.div_mod (p - y) 2 ltac:(lia)) as D3.
+  pose proof (Z.mod_pos_bound y 2 ltac:(lia)). lia.
+Qed.
+
+Lemma compress2_aff x y : 0 <= fst x -> 0 <= snd x -> 0 <= fst y -> 0 <= snd y < 2 ^ 256 ->
+  compress2 (Aff2 x y) =
+  set_top (y_parity (snd y)) (to_bytes 32 (snd x) ++ to_bytes 32 (fst x)).
+Proof.
+  intros H1 H2 H3 H4. cbv beta iota zeta delta [compress2 marshal2].
+  rewrite (app_assoc (to_bytes 32 (snd x))).
+  rewrite firstn_app_len, skipn_app_len by (rewrite app_length, !to_bytes_length; reflexivity).
+  rewrite firstn_app_len by apply to_bytes_length.
+  rewrite be_to_bytes, pow256_32, Z.mod_small by lia. reflexivity.
+Qed.
+
+Lemma decompress2_set_top p sq insub x par :
+  0 <= fst x < 2 ^ 256 -> 0 <= snd x < 2 ^ 255 -> (par = 0 \/ par = 1)%N ->
+  decompress2 p sq insub (set_top par (to_bytes 32 (snd x) ++ to_bytes 32 (fst x))) =
+  match sq (add2 p (pow2 p x 3) twistB) with
+  | None => Err2
+  | Some y => g2_from_ints p insub x
+                (if N.eqb par (y_parity (snd y)) then y else neg2 p y)
+  end.
+Proof.
+  destruct x as [x1 x2]. cbn [fst snd]. intros Hx1 Hx2 Hpar.
+  rewrite (to_bytes_32 x2). cbn [app set_top].
+  cbv beta iota zeta delta [decompress2].
+  destruct (top_ops _ par (top_byte_small x2 Hx2) Hpar) as [T1 T2]. rewrite T1, T2.
+  rewrite (skipn_cons 31), skipn_app_len, firstn_app_len by apply to_bytes_length.
+  rewrite <- to_bytes_32. rewrite !be_to_bytes, pow256_32, !Z.mod_small by lia.
+  reflexivity.
+Qed.
+
+Lemma in_range2_iff p a : in_range2 p a = true <-> ok2 p a.
+Proof.
+  unfold in_range2, ok2. rewrite !andb_true_iff, !Z.leb_le, !Z.ltb_lt. tauto.
+Qed.
+
+Lemma g2_from_ints_valid p insub x y : p < 2 ^ 256 ->
+  valid2 p (Aff2 x y) = true -> snd y <> 0 -> insub x y = true ->
+  g2_from_ints p insub x y = R2 (Aff2 x y).
+Proof.
+  intros Hp V Hy Hs. cbn [valid2] in V. rewrite !andb_true_iff, !in_range2_iff in V.
+  destruct V as [[[X1 X2] [Y1 Y2]] T].
+  unfold g2_from_ints, two256.
+  destruct (Z.leb_spec (2 ^ 256) (fst x)); [lia|]. destruct (Z.leb_spec (2 ^ 256) (snd x)); [lia|].
+  destruct (Z.leb_spec (2 ^ 256) (fst y)); [lia|]. destruct (Z.leb_spec (2 ^ 256) (snd y)); [lia|].
+  destruct (Z.leb_spec p (fst x)); [lia|]. destruct (Z.leb_spec p (snd x)); [lia|].
+  destruct (Z.leb_spec p (fst y)); [lia|]. destruct (Z.leb_spec p (snd y)); [lia|].
+  cbn [orb]. destruct (Z.eqb_spec (snd y) 0); [contradiction|]. rewrite andb_false_r.
+  rewrite T, Hs. reflexivity.
+Qed.
+
+Lemma pow2_3 p x : 1 < p -> ok2 p x -> pow2 p x 3 = mul2 p (mul2 p x x) x.
+Proof.
+  intros Hp Hx. change (pow2 p x 3) with (mul2 p (mul2 p (1, 0) x) (mul2 p x x)).
+  rewrite mul2_1_l' by assumption. apply mul2C.
+Qed.
+
+Theorem g2_roundtrip : prime P -> forall insub x y,
+  valid2 P (Aff2 x y) = true -> snd y <> 0 -> insub x y = true ->
+  decompress2 P (sqrt_gfp2 P) insub (compress2 (Aff2 x y)) = R2 (Aff2 x y).
+Proof.
+  intros HP insub x y V Hy Hs. destruct P_facts as [F1 [F2 F3]].
+  pose proof V as V'. cbn [valid2] in V'. rewrite !andb_true_iff, !in_range2_iff in V'.
+  destruct V' as [[[X1 X2] [Y1 Y2]] T]. unfold on_twist in T. apply eq2_eq in T.
+  rewrite compress2_aff by lia.
+  rewrite decompress2_set_top by (try lia; apply y_parity_01).
+  rewrite pow2_3 by (try lia; split; assumption). rewrite <- T.
+  destruct (sqrt_gfp2_finds_roots HP y (conj Y1 Y2)) as [r [Hr [Hrok [E|E]]]]; rewrite Hr.
+  - subst r. rewrite N.eqb_refl. apply g2_from_ints_valid; try assumption; lia.
+  - assert (Hodd : P mod 2 = 1).
+    { pose proof (Z.div_mod P 4 ltac:(lia)) as H. rewrite F1 in H.
+      rewrite H. replace (4 * (P / 4) + 3) with (1 + (2 * (P / 4) + 1) * 2) by ring.
+      rewrite Z.mod_add by lia. reflexivity. }
+    assert (Es : snd r = P - snd y).
+    { subst r. cbn [neg2 snd]. symmetry. apply Z.mod_unique with (-1); lia. }
+    rewrite Es, parity_flip by lia.
+    rewrite E, neg2_neg2 by (split; assumption).
+    apply g2_from_ints_valid; try assumption; lia.
+Qed.
+
+(* ---------------- totality of DecompressToG2 (no primality needed) ---------------- *)
+Lemma g2_from_ints_total p insub x y :
+  0 <= fst x -> 0 <= snd x -> 0 <= fst y -> 0 <= snd y ->
+  match g2_from_ints p insub x y with R2 pt => valid2 p pt = true | Err2 => True | _ => False end.
+Proof.
+  intros X1 X2 Y1 Y2. unfold g2_from_ints.
+  destruct (_ || _ || _ || _); [exact I|].
+  destruct (_ || _ || _ || _) eqn:E; [exact I|].
+  rewrite !orb_false_iff, !Z.leb_gt in E. destruct E as [[[E1 E2] E3] E4].
+  destruct (_ && _ && _ && _); [reflexivity|].
+  destruct (on_twist p x y) eqn:T; [|exact I]. destruct (insub x y); [|exact I].
+  cbn [andb valid2]. rewrite T, !andb_true_r. apply andb_true_iff.
+  split; apply in_range2_iff; split; lia.
+Qed.
+
+Theorem decompress2_total_gen p insub m : 1 < p -> m <> [] ->
+  match decompress2 p (sqrt_gfp2 p) insub m with
+  | R2 pt => valid2 p pt = true | Err2 => True | _ => False end.
+Proof.
+  intros Hp Hm. destruct m as [|b0 rest]; [congruence|].
+  cbv beta iota zeta delta [decompress2].
+  destruct (sqrt_gfp2 p _) as [y|] eqn:Es; [|exact I].
+  apply sqrt_gfp2_sound in Es; [|exact Hp]. destruct Es as [[Y1 Y2] _].
+  apply g2_from_ints_total; cbn [fst snd]; try apply be_nonneg.
+  - destruct (N.eqb _ _); [lia|]. apply Z.mod_pos_bound. lia.
+  - destruct (N.eqb _ _); [lia|]. apply Z.mod_pos_bound. lia.
+Qed.
+
+(* ================================================================== *)
 (* the executable validity predicate is the curve equation with reduced coordinates *)
 Lemma valid1_iff p x y : valid1 p (Aff1 x y) = true <->
   (0 <= x < p /\ 0 <= y < p /\ (y * y) mod p = (x * x * x + 3) mod p).
